@@ -39,6 +39,11 @@ def run(ctx, ss):
     ctx.guard("C13.5", memo_for, ss, "C13", "C13.5", "a descriptor")
     from .c11 import chain_ctor_clauses
     ctx.guard("C13.4", chain_ctor_clauses, ss, "C13.4")
+    # C13.6 the rendered daughters of one level are sorted through DaughtersDict(<tuple of rendered strings>): its constructor
+    # takes every element of a list / tuple as ONE entry (C11.6 shared) -- a single rendered sub-decay is not split into words
+    from .c05 import _as
+    from .c11 import c11_6
+    ctx.guard("C13.6", lambda c, s: _as(c, s, c11_6, "C13.6"), ss)
 
 
 def c13_1(ctx, ss):
